@@ -192,7 +192,7 @@ PROPS["C14"] = dict(PROPS["C13"], driver="c14", require_classes=["hop:second-or-
 PROPS["C15"] = {
     "driver": "c15", "trace_spec": "TraceRedirect",
     "mc_quick": REDIR_MC_Q[:1] + REDIR_MC_Q[4:], "mc_thorough": REDIR_MC_T,
-    "require_classes": ["hop:not-followed", "hop:despite-method", "hop:after-interim-100", "hop:interim-100-surfaced", "hop:to-the-same-uri", "hop:answered-while-awaiting-100", "hop:chain-in-c15", "hop:long-chain"], "require_kinds": ["hop", "landed"],
+    "require_classes": ["hop:not-followed", "hop:despite-method", "hop:after-interim-100", "hop:interim-100-surfaced", "hop:to-the-same-uri", "hop:answered-while-awaiting-100", "hop:chain-in-c15", "hop:long-chain", "hop:no-location"], "require_kinds": ["hop", "landed"],
     "rule": "one case = one flow: 9 methods x every status 300..399 x both auth policies x with/without response body (3600 flows, all of them in both tiers); "
             "distinct = distinct (method, status)",
     "assumptions": REDIR_ASSUME,
